@@ -465,7 +465,7 @@ pub fn run(ctx: &mut Ctx) {
         let mut r = Rng::derive(ctx.seed, &[18, 77, j]);
         let big = op_alphabet(12);
         let mut h = vec![];
-        for _ in 0..200 {
+        for _ in 0..(if ctx.is_fuzz() { 50 } else { 200 }) {
             if r.chance(1, 5) {
                 h.push(Op::AddNode(r.range(0, 3) as i32));
             } else if r.chance(1, 4) {
